@@ -32,17 +32,18 @@ fn label(dfa: &DFA, inp: &Inp, subs: &mut Vec<Value>, subids: &mut Vec<usize>) -
             description,
             fallback_level,
         } => {
-            json!({"k":"lit","t":literal.as_str(),"d":description.map(|d| d.as_str().to_string()).unwrap_or_default(),"hd":description.is_some(),"lv":fallback_level,"sub":0})
+            json!({"k":"lit","t":literal.as_str(),"d":description.map(|d| d.as_str().to_string()).unwrap_or_default(),"hd":description.is_some(),"lv":fallback_level,"sub":0,
+                   "cp":literal.as_str().chars().map(|c| c as u32).collect::<Vec<u32>>()})
         }
         Inp::Command {
             cmd,
             fallback_level,
-        } => json!({"k":"cmd","t":cmd.as_str(),"d":"","hd":false,"lv":fallback_level,"sub":0}),
+        } => json!({"k":"cmd","t":cmd.as_str(),"d":"","hd":false,"lv":fallback_level,"sub":0,"cp":[]}),
         Inp::Compadd {
             cmd,
             fallback_level,
-        } => json!({"k":"compadd","t":cmd.as_str(),"d":"","hd":false,"lv":fallback_level,"sub":0}),
-        Inp::Star => json!({"k":"star","t":"","d":"","hd":false,"lv":0,"sub":0}),
+        } => json!({"k":"compadd","t":cmd.as_str(),"d":"","hd":false,"lv":fallback_level,"sub":0,"cp":[]}),
+        Inp::Star => json!({"k":"star","t":"","d":"","hd":false,"lv":0,"sub":0,"cp":[]}),
         Inp::Subword {
             subdfa,
             fallback_level,
@@ -59,7 +60,7 @@ fn label(dfa: &DFA, inp: &Inp, subs: &mut Vec<Value>, subids: &mut Vec<usize>) -
                     subs.len() - 1
                 }
             };
-            json!({"k":"sub","t":"","d":"","hd":false,"lv":fallback_level,"sub":pos + 1})
+            json!({"k":"sub","t":"","d":"","hd":false,"lv":fallback_level,"sub":pos + 1,"cp":[]})
         }
     }
 }
